@@ -38,6 +38,16 @@ func gen(t *rapid.T) peng.Case {
 	if rapid.IntRange(0, 3).Draw(t, "failSend") == 0 {
 		c.Mgrs[0].FailSendAt = rapid.SliceOfNDistinct(rapid.IntRange(1, 80), 1, 2, rapid.ID[int]).Draw(t, "failSendAt")
 	}
+	// the connections to a server break underneath it once or twice (it keeps listening)
+	if rapid.IntRange(0, 3).Draw(t, "cut") == 0 {
+		k := rapid.IntRange(1, 2).Draw(t, "ncut")
+		for i := 0; i < k; i++ {
+			op := peng.Op{Kind: "cut", Thread: rapid.IntRange(0, c.Threads-1).Draw(t, fmt.Sprintf("cutThread%d", i)),
+				Call: scen.CallSpec{Node: rapid.IntRange(0, c.N-1).Draw(t, fmt.Sprintf("cutNode%d", i))}}
+			at := rapid.IntRange(0, len(c.Ops)).Draw(t, fmt.Sprintf("cutAt%d", i))
+			c.Ops = append(c.Ops[:at], append([]peng.Op{op}, c.Ops[at:]...)...)
+		}
+	}
 	// calls of methods the servers have no handler for (the request is skipped by the server:
 	// a two-way call ends by its deadline, a one-way call when it is sent)
 	if rapid.IntRange(0, 3).Draw(t, "unhandled") == 0 {
@@ -129,6 +139,10 @@ func run(c peng.Case) vt.Verdict {
 		classes = append(classes, "injected-send-failure")
 		slowqf = true // counts as non-trivial
 	}
+	if r.Cuts > 0 {
+		classes = append(classes, "connection-cut")
+		slowqf = true // counts as non-trivial
+	}
 	if c.Mgrs[0].MaxSendBytes > 0 {
 		classes = append(classes, "send-size-limit")
 		for _, op := range c.Ops {
@@ -179,7 +193,7 @@ func run(c peng.Case) vt.Verdict {
 func TestProp(t *testing.T) {
 	vt.Main(t, vt.Spec[peng.Case]{
 		ID:           "C09",
-		Rule:         "rapid-generated workloads: 4-40 calls of all 20 kinds from 1-6 threads with barriers on 1-4 reachable servers, cancellations and deadlines at generated instants (1 us - 5 ms), thresholds up to the configuration size, correctable completion, slow quorum functions (up to 20 ms), slow/holding/early-releasing/failing handlers that always return, server streams that send up to 6 replies per node, GOMAXPROCS 1/2/4/default, in 1 of 4 cases a client send-size limit with requests too large to send, in 1 of 4 cases one or two injected failures of single stream writes (client stream interceptor), in 1 of 4 cases 1-3 calls (two-way with a deadline, or one-way) of methods of another registered service for which the servers have no handler, in half of the cases seeded jitter at the statement-level yield points of the instrumented runtime; in 1 of 4 cases a 15 ms dial timeout and probe handlers that take 25 ms; after the workload drains, an RPC with a fresh context to every node must return that node's genuine reply, and then a quorum call (sometimes also an async, correctable or per-node call) that needs every node must succeed (black-box probe; a failed probe is confirmed by two goroutine dumps 10 s apart); non-trivial (measured) = a stream was re-created after a cancelled send, or a stream call was abandoned with replies outstanding, or a slow quorum function, or a request too large to send, or an injected write failure that was reached, or a call of a method without a handler",
+		Rule:         "rapid-generated workloads: 4-40 calls of all 20 kinds from 1-6 threads with barriers on 1-4 reachable servers, cancellations and deadlines at generated instants (1 us - 5 ms), thresholds up to the configuration size, correctable completion, slow quorum functions (up to 20 ms), slow/holding/early-releasing/failing handlers that always return, server streams that send up to 6 replies per node, GOMAXPROCS 1/2/4/default, in 1 of 4 cases a client send-size limit with requests too large to send, in 1 of 4 cases one or two injected failures of single stream writes (client stream interceptor), in 1 of 4 cases one or two cuts of the connections to a server that keeps listening, in 1 of 4 cases 1-3 calls (two-way with a deadline, or one-way) of methods of another registered service for which the servers have no handler, in half of the cases seeded jitter at the statement-level yield points of the instrumented runtime; in 1 of 4 cases a 15 ms dial timeout and probe handlers that take 25 ms; after the workload drains, an RPC with a fresh context to every node must return that node's genuine reply, and then a quorum call (sometimes also an async, correctable or per-node call) that needs every node must succeed (black-box probe; a failed probe is confirmed by two goroutine dumps 10 s apart); non-trivial (measured) = a stream was re-created after a cancelled send, or a stream call was abandoned with replies outstanding, or a slow quorum function, or a request too large to send, or an injected write failure that was reached, or a call of a method without a handler",
 		Gen:          gen,
 		Run:          run,
 		TrackCurrent: true,
